@@ -11,6 +11,7 @@ import (
 	"io/ioutil"
 	"os"
 	"path/filepath"
+	"sort"
 	"strings"
 
 	"github.com/martian-lang/martian/martian/util"
@@ -203,7 +204,14 @@ func (parser *Parser) ParseSourceBytes(src []byte, srcPath string,
 		if checkSrc {
 			stagecodePaths := filepath.SplitList(os.Getenv("PATH"))
 			seenPaths := make(map[string]struct{}, len(incPaths)+len(stagecodePaths))
+			// In a fixed order: it decides which of two executables of the
+			// same name is found, and the text of the error if none is.
+			files := make([]string, 0, len(ast.Files))
 			for f := range ast.Files {
+				files = append(files, f)
+			}
+			sort.Strings(files)
+			for _, f := range files {
 				p := filepath.Dir(f)
 				if _, ok := seenPaths[p]; !ok {
 					stagecodePaths = append(stagecodePaths, p)
